@@ -15,6 +15,8 @@ STUBS = [
     'open(..., "w"/"wb") in engine -> in-memory capture (records every open and write)',
     'click.echo / print in engine -> no-op / capture; hex() in engine (error message only) -> constant text',
     'yaml.safe_load in model -> deep copy of the shape\'s configuration dictionary with symbolic numeric leaves',
+    'parse_expression as imported into preprocessor.condition: designated operand names (c1, c2, ...) yield a numeric '
+    'node holding a symbolic integer, every other text goes to the real parser',
     'process-global state reset per path: LabelScope._global_scope, InstructionLine._INSTRUCTUION_EXTRACTION_PATTERN, '
     'AssemblyFile.load_line_objects default set',
 ]
@@ -22,6 +24,7 @@ STUBS = [
 _installed = False
 capture = {'opens': [], 'writes': {}, 'stdout': []}
 _config_provider = {'fn': None}
+_cond_symbols = {'map': {}}
 _originals = {}
 
 
@@ -111,7 +114,22 @@ def install():
     model.click = _Click
     import bespokeasm.assembler.assembly_file as af
     af.click = _Click
+    import bespokeasm.assembler.preprocessor.condition as cond
+    cond.parse_expression = _cond_parse_expression
     _installed = True
+
+
+def set_condition_symbols(mapping):
+    """names -> SymInt: operands of #if/#elif that stand for an arbitrary integer (C08)"""
+    _cond_symbols['map'] = dict(mapping)
+
+
+def _cond_parse_expression(line_id, expression):
+    from bespokeasm.expression import parse_expression, ExpressionNode, TokenType
+    v = _cond_symbols['map'].get(expression.strip())
+    if v is not None:
+        return ExpressionNode(TokenType.T_NUM, value=v)
+    return parse_expression(line_id, expression)
 
 
 def set_config_provider(fn):
